@@ -146,7 +146,7 @@ Qed.
 
 Lemma link_url_wf f sn sp e n c :
   e_name e = Some n -> e_type e = Some [c] -> entry_wf sn sp e = true ->
-  exists u k t, link_url f sn e = Some u /\ target_case f sn sp e c u k t.
+  exists u k t, link_url f sn sp e = Some u /\ target_case f sn sp e c u k t.
 Proof.
   intros N T W. unfold entry_wf in W. rewrite N, T in W.
   do 6 (apply andb_true_iff in W as [W ?]).
@@ -172,8 +172,7 @@ Proof.
       unfold geturl. rewrite (url_tail_no_scheme _ U). unfold type_text. rewrite T.
       change ([c] ++ e_selector e) with (c :: e_selector e). unfold SLASHc. rewrite Q. simpl.
       unfold eff_host, eff_port. rewrite EH.
-      destruct (e_port e) as [p|]; [reflexivity|].
-      match goal with H1 : (sp =? 70)%Z = true |- _ => apply Z.eqb_eq in H1; now rewrite H1 end.
+      reflexivity.
     + (* remote: port set *)
       match goal with H0 : remote_ok sn sp c e = true |- _ => rename H0 into RO end.
       pose proof RO as RO'. unfold remote_ok in RO'.
@@ -545,7 +544,7 @@ Proof.
 Qed.
 
 Lemma gem_line_wf f sn sp e : f <> FHttp -> entry_wf sn sp e = true ->
-  exists l v, gem_renderobjinfo f sn e = Some (l ++ [10]) /\ mem_N 10 l = false /\
+  exists l v, gem_renderobjinfo f sn sp e = Some (l ++ [10]) /\ mem_N 10 l = false /\
               view_gemline l = v /\ view sn sp e = Some v.
 Proof.
   intros F W. destruct (wf_fields sn sp e W) as (n & c & N & T & NN & NC & NS & NH).
@@ -595,7 +594,7 @@ Qed.
 
 Lemma gem_rows f sn sp rows : f <> FHttp -> forallb (entry_wf sn sp) rows = true ->
   exists ls vs,
-    all_some (map (gem_renderobjinfo f sn) rows) = Some (map (fun l => l ++ [10]) ls) /\
+    all_some (map (gem_renderobjinfo f sn sp) rows) = Some (map (fun l => l ++ [10]) ls) /\
     Forall (fun l => mem_N 10 l = false) ls /\ map view_gemline ls = vs /\ views sn sp rows = Some vs.
 Proof.
   intros F. induction rows as [|e rows IH]; intros W.
@@ -612,7 +611,7 @@ Qed.
 
 Theorem gem_dir_view f sn sp rows : f <> FHttp -> forallb (entry_wf sn sp) rows = true ->
   exists body vs,
-    option_map fst (render_rows unit (stateless (gem_renderobjinfo f sn)) tt rows) = Some body /\
+    option_map fst (render_rows unit (stateless (gem_renderobjinfo f sn sp)) tt rows) = Some body /\
     view_gemtext body = vs /\ views sn sp rows = Some vs.
 Proof.
   intros F W. destruct (gem_rows f sn sp rows F W) as (ls & vs & R & NL & VM & V).
@@ -824,7 +823,7 @@ Definition reads_rows (piece : str) (rs : list hrow) : Prop :=
 Theorem http_row_view icons sn sp e :
   icons_ok icons = true -> entry_wf sn sp e = true ->
   exists row r v,
-    http_renderobjinfo icons sn e = Some row /\ reads_rows row [r] /\
+    http_renderobjinfo icons sn sp e = Some row /\ reads_rows row [r] /\
     view_hrow r = v /\ view sn sp e = Some v.
 Proof.
   intros IO W. destruct (wf_fields sn sp e W) as (n & c & N & T & NN & NC & NS & NH).
@@ -870,7 +869,7 @@ Proof. intros acc. exists acc, []. auto. Qed.
 
 Lemma http_rows_read icons sn sp rows : icons_ok icons = true -> forallb (entry_wf sn sp) rows = true ->
   exists ss rs vs,
-    all_some (map (http_renderobjinfo icons sn) rows) = Some ss /\ reads_rows (concat ss) rs /\
+    all_some (map (http_renderobjinfo icons sn sp) rows) = Some ss /\ reads_rows (concat ss) rs /\
     map view_hrow rs = vs /\ views sn sp rows = Some vs.
 Proof.
   intros IO. induction rows as [|e rows IH]; intros W.
@@ -1055,7 +1054,7 @@ Qed.
 Theorem wap_row_view waptop sn sp st e :
   is_local_href waptop = true -> entry_wf sn sp e = true ->
   exists row st' it v,
-    wap_renderobjinfo waptop sn st e = Some (row, st') /\ reads_items row [it] /\
+    wap_renderobjinfo waptop sn sp st e = Some (row, st') /\ reads_items row [it] /\
     view_witem waptop it = v /\ view sn sp e = Some v.
 Proof.
   intros WT W. destruct (wf_fields sn sp e W) as (n & c & N & T & NN & NC & NS & NH).
@@ -1090,7 +1089,7 @@ Qed.
 Lemma wap_rows_read waptop sn sp rows : is_local_href waptop = true ->
   forallb (entry_wf sn sp) rows = true -> forall st,
   exists body st' L vs,
-    render_rows wapst (wap_renderobjinfo waptop sn) st rows = Some (body, st') /\ reads_items body L /\
+    render_rows wapst (wap_renderobjinfo waptop sn sp) st rows = Some (body, st') /\ reads_items body L /\
     map (view_witem waptop) L = vs /\ views sn sp rows = Some vs.
 Proof.
   intros WT. induction rows as [|e rows IH]; intros W st.
@@ -1192,4 +1191,23 @@ Proof.
     { unfold dir_entries. f_equal. unfold doabstracts. destruct (c_abs_entries c); try reflexivity.
       destruct H as [H|H]; [congruence|now rewrite H]. }
     rewrite E in VP. congruence.
+Qed.
+
+(* ---------- the pinned code handed geturl the constant 70 (fixed in /repo ee294ab) ---------- *)
+Definition far_e : entry :=
+  mkEntry (lit "dot./x") (Some (lit "9")) (Some (lit "far 3")) (Some (lit "other.example")) None
+          None None None None None None None 0%Z false false [].
+Theorem default_port_refuted :
+  exists sn sp row r l,
+    entry_wf sn sp far_e = true /\
+    http_renderobjinfo [] sn 70%Z far_e = Some row /\ html_rows row = [r] /\
+    gem_renderobjinfo FGemini sn 70%Z far_e = Some (l ++ [10]) /\
+    Some (view_hrow r) <> view sn sp far_e /\ Some (view_gemline l) <> view sn sp far_e /\
+    v_target (view_hrow r) = Some (lit "gopher://other.example:70/9dot./x") /\
+    option_map v_target (view sn sp far_e) = Some (Some (lit "gopher://other.example:7070/9dot./x")).
+Proof.
+  exists (lit "gopher.example"), 7070%Z. eexists. eexists. exists (lit "=> gopher://other.example:70/9dot./x far 3").
+  split; [vm_compute; reflexivity|]. split; [vm_compute; reflexivity|]. split; [vm_compute; reflexivity|].
+  split; [vm_compute; reflexivity|]. split; [vm_compute; discriminate|]. split; [vm_compute; discriminate|].
+  split; vm_compute; reflexivity.
 Qed.
